@@ -1473,7 +1473,7 @@ class unyt_array(np.ndarray):
             unit = Unit()
         elif re.fullmatch(_UNIT_REGEXP, v):
             num = 1
-            unit = Unit(re.match(_UNIT_REGEXP, v).group())
+            unit = re.match(_UNIT_REGEXP, v).group()
         elif not re.fullmatch(_QUAN_REGEXP, v):
             raise ValueError(f"Received invalid quantity expression '{s}'.")
         else:
